@@ -411,6 +411,13 @@ class ProdProp:
     def check_case(self, run: Run, case: ProdCase) -> None:
         run.evaluations += len(case.queries)
         run_idx: list[int] = []
+        # the model's answers first: a failure counts as a KNOWN finding only when the model (which encodes the recorded
+        # defect, see the negation theorems) predicts exactly the same answers for this case
+        if case.meta.get('oracle_only'):
+            mdefs, mres, agrees = {}, [], False
+        else:
+            mdefs, mres = model_answers(case)
+            agrees = len(mres) == len(case.impl) and all(self.same(a, b) for a, b in zip(case.impl, mres))
         run.stats['inconclusive_watchdog'] = run.stats.get('inconclusive_watchdog', 0) + case.meta.get('inconclusive', 0)
         for (pid, dt), res in zip(case.queries, case.impl):
             run.nontrivial.add((case.tz, prod_sx(case.specs[pid]), dt))
@@ -426,10 +433,10 @@ class ProdProp:
                 # keep the anchoring first query of this producer
                 single.queries = ([(pid, case.anchor[pid])] if case.anchor.get(pid, dt) != dt and has_unanchored(case.specs[pid]) else []) + [(pid, dt)]
                 run.findings.append(Finding('oracle', msg, single.to_json(),
-                                            self.known_signature(case, pid, dt, res, msg)))
+                                            self.known_signature(case, pid, dt, res, msg) if agrees else None))
         cm = getattr(case, 'case_msgs', None)
         for msg, sig, rep in (cm if cm is not None else self.case_oracle(case)):
-            run.findings.append(Finding('oracle', msg, rep, sig))
+            run.findings.append(Finding('oracle', msg, rep, sig if agrees else None))
         for sp in case.specs.values():
             for k in prod_kinds(sp):
                 run.stats['kind_' + k] = run.stats.get('kind_' + k, 0) + 1
@@ -442,7 +449,6 @@ class ProdProp:
         if case.meta.get('oracle_only'):
             run.stats['oracle_only_cases'] = run.stats.get('oracle_only_cases', 0) + 1
             return
-        mdefs, mres = model_answers(case)
         run.traces_validated += 1
         for r in getattr(case, 'regular', []):
             key = 'hyp_TimeRegular_' + ('ok' if r == 'regular ok' else 'fail')
